@@ -313,7 +313,13 @@ pub struct SimResult<T> {
 }
 
 pub fn install_quiet_panic_hook() {
-    std::panic::set_hook(Box::new(|_| {}));
+    // panics of simulated executions are verdicts and stay quiet; a panic anywhere else is a
+    // defect of the harness and says where
+    std::panic::set_hook(Box::new(|info| {
+        if std::thread::current().name() != Some("sim-executor") {
+            eprintln!("harness panic (thread {:?}): {info}", std::thread::current().name());
+        }
+    }));
 }
 
 fn payload_msg(e: Box<dyn std::any::Any + Send>) -> String {
